@@ -12,6 +12,11 @@ META: dict[str, dict[str, str]] = {
         "note": "Invariant table for two remove() sites (reason recorded per entry)." + COMMON_NOTE,
         "technique": "static analysis: dominating-guard check on remove() call sites, def-use wiring of PoolSum pools vs Wigner-D arguments, loop-shape roles",
     },
+    "C08": {
+        "level": "Decides: printer discipline of all NumPy/Python printer methods (so cse on/off and non-symbol arguments print valid code), agreement of the explicit matrix with the matrix laid out by the generated-code template for the arguments evaluate() passes (4 classes x 16 entries, commutative normal form), and the Lorentz condition M^T eta M = eta, handedness, L00 = gamma, B(p)p = (m,0,0,0) and symmetry for the explicit matrices as rational-function identities over sqrt atoms. Does not decide einsum strings, batch sizes or floating-point accuracy.",
+        "note": "ComplexSqrt == sqrt for beta <= 1; formal radical algebra at a generic positive point." + COMMON_NOTE,
+        "technique": "static analysis: taint of f-string placeholders in printer methods; term extraction of matrix literals and code templates with rational-function normal form",
+    },
     "C09": {
         "level": "Decides what unitarity and symmetry need from the code: K parametrisations symmetric under i<->j and free of the imaginary unit, T = K(1-iK)^-1 and the relativistic T^/T formulas in a non-commutative normal form (push-through equivalents accepted, wrong sign/side/missing rho rejected), rho symbol identity between producer and both consumers, duplicated symbol constructions agreeing in kind and assumptions, K[i,j] substituted by the own parametrisation. Numerical unitarity is not decided.",
         "note": "Matrix identities (push-through) and S = 1+2iT are trusted mathematics." + COMMON_NOTE,
